@@ -7,7 +7,8 @@
     which characterises M(s) = exp(s A). *)
 From Coq Require Import Reals.
 From Coquelicot Require Import Coquelicot.
-From Cheetah Require Import Base.Mat Optics.Maps Optics.Flow Optics.FlowProofs Optics.SolProofs Optics.ConjProofs Optics.GuardProofs.
+From Cheetah Require Import Base.Mat Optics.Maps Optics.Flow Optics.FlowProofs Optics.SolProofs Optics.ConjProofs Optics.GuardProofs
+  Optics.UndFixed Optics.UndFixedFlow.
 Open Scope R_scope.
 
 (** the generators are S6 . Hess(H) for the stated quadratic Hamiltonians, with S6 = diag(J2, J2, -J2) *)
@@ -157,6 +158,22 @@ Example C02_nonvacuous :
   is_derive (fun L => m7nth (base_untilted L 2 (1 / 2) 5e6) 0 5) 1 (m7nth (base_untilted 1 2 (1 / 2) 5e6) 1 5).
 Proof. exact nonvacuous. Qed.
 
+(** Undulator after the repair of finding F3 ([und_map_fixed]: R56 = -length / beta**2 * igamma2 through
+    compute_relativistic_factors): it is the drift map, hence the exact flow of the drift Hamiltonian.  Which of
+    [und_map] (before) / [und_map_fixed] (after) the working tree computes is checked on every run (harness/optics.py),
+    selected by the status of F3 in known_findings.json. *)
+Theorem C02_undulator_fixed_is_drift : forall L E, und_map_fixed L E = drift_map L E.
+Proof. exact undulator_fixed_is_drift. Qed.
+Theorem C02_undulator_fixed_flow : forall E,
+  is_flow (rmmul S6 (hess_sbend 0 0 0 (beta_of E) (igamma2_of E))) (fun L => und_map_fixed L E).
+Proof. exact undulator_fixed_flow. Qed.
+Theorem C02_undulator_fixed_r56 : forall L E, m_e < E -> 0 < L ->
+  m7nth (und_map_fixed L E) 4 5 = - L / ((beta_of E)² * (gamma_of E)²) /\ m7nth (und_map_fixed L E) 4 5 < 0.
+Proof. exact undulator_fixed_r56. Qed.
+(* the repair is not a no-op: the two transcriptions differ for every L > 0 above the rest energy *)
+Theorem C02_undulator_fixed_differs_from_old : forall L E, m_e < E -> 0 < L -> und_map_fixed L E <> und_map L E.
+Proof. exact undulator_fixed_differs_from_old. Qed.
+
 Print Assumptions C02_hamiltonian_sbend.
 Print Assumptions C02_generator_sbend.
 Print Assumptions C02_hamiltonian_solenoid.
@@ -189,3 +206,7 @@ Print Assumptions C02_quad_k0_guard_bound.
 Print Assumptions C02_undulator_map_refuted.
 Print Assumptions C02_dipole_L0_refuted.
 Print Assumptions C02_nonvacuous.
+Print Assumptions C02_undulator_fixed_is_drift.
+Print Assumptions C02_undulator_fixed_flow.
+Print Assumptions C02_undulator_fixed_r56.
+Print Assumptions C02_undulator_fixed_differs_from_old.
